@@ -7,10 +7,11 @@ pub mod c07;
 pub mod c08;
 pub mod c09;
 pub mod c10;
+pub mod c11;
 pub mod c13;
 
 pub fn ids() -> Vec<&'static str> {
-    vec!["C05", "C07", "C08", "C09", "C10", "C13"]
+    vec!["C05", "C07", "C08", "C09", "C10", "C11", "C13"]
 }
 
 pub fn property(id: &str) -> Option<Property> {
@@ -20,6 +21,7 @@ pub fn property(id: &str) -> Option<Property> {
         "C08" => c08::property(),
         "C09" => c09::property(),
         "C10" => c10::property(),
+        "C11" => c11::property(),
         "C13" => c13::property(),
         _ => return None,
     })
